@@ -4,9 +4,13 @@ ROOT = os.path.dirname(os.path.dirname(os.path.abspath(__file__)))
 PROPS = [json.loads(l)["id"] for l in open(os.path.join(ROOT, "properties.jsonl"))]
 
 NOTE = ("Trusted: Lean 4.33 kernel (axioms propext/Classical.choice/Quot.sound only, audited per theorem; no sorry/axiom/"
-        "native_decide); harness/translate.py (T1); the correspondence harness (descriptor builder standing in for protoc, "
-        "loopback servers, canonicalisation, oracles). The model is hand-written: its agreement with /repo is as strong as "
-        "T1 bridge lemmas + T2/T3 differential runs on the inputs of the run. Runtime shell (CPython, re, protobuf, grpcio, "
+        "native_decide); harness/translate.py (T1: tables, regexes via CPython's parser, template lists) and harness/pyfun2lean.py with "
+        "lean/GapicModel/PyRt.lean (T1-f: small pure functions of /repo translated to Lean from the current source on every run; bridge "
+        "lemmas Generated = Pinned by rfl; the run-time library and every translation are compared with CPython / the real function on "
+        "every run); the correspondence harness (descriptor builder standing in for protoc, "
+        "loopback servers, canonicalisation, oracles). The rest of the model is hand-written (link theorems `*_is_translated` tie it to the "
+        "translated functions where they exist): its agreement with /repo is as strong as "
+        "the bridge lemmas + T2/T3 differential runs on the inputs of the run. Runtime shell (CPython, re, protobuf, grpcio, "
         "api-core, jinja2) is modelled, not verified; pandoc is replaced by a stand-in. ")
 
 def load_claims():
